@@ -15,6 +15,7 @@ import (
 	"strconv"
 	"strings"
 	"sync"
+	"time"
 
 	"go4.org/rollsum"
 
@@ -470,10 +471,16 @@ type fragReader struct {
 	eofWith  bool
 	eofFrom  int // bytes delivered before the data-bearing Read that also returned io.EOF; -1 = none
 	reads    int
+	eofc     chan struct{} // closed when io.EOF has been returned
+	eofOnce  sync.Once
+}
+
+func (r *fragReader) sawEOF() {
+	r.eofOnce.Do(func() { close(r.eofc) })
 }
 
 func newFragReader(spec string, data []byte) (*fragReader, bool) {
-	fr := &fragReader{data: data, eofFrom: -1}
+	fr := &fragReader{data: data, eofFrom: -1, eofc: make(chan struct{})}
 	if spec == "p" {
 		fr.plain = true
 		return fr, true
@@ -502,6 +509,7 @@ func (r *fragReader) Read(p []byte) (int, error) {
 	rem := len(r.data) - r.pos
 	if r.plain {
 		if rem == 0 {
+			r.sawEOF()
 			return 0, io.EOF
 		}
 		n := copy(p, r.data[r.pos:])
@@ -509,6 +517,7 @@ func (r *fragReader) Read(p []byte) (int, error) {
 		return n, nil
 	}
 	if rem == 0 {
+		r.sawEOF()
 		return 0, io.EOF
 	}
 	if len(p) == 0 {
@@ -529,6 +538,7 @@ func (r *fragReader) Read(p []byte) (int, error) {
 	r.pos += k
 	if r.pos == len(r.data) && r.eofWith {
 		r.eofFrom = before
+		r.sawEOF()
 		return k, io.EOF
 	}
 	return k, nil
@@ -574,6 +584,8 @@ type writeResult struct {
 	leaves  []uint64 // sizes of the raw chunks in order
 	nBytes  int      // number of bytes schema blobs
 	depth   int
+	chunkRefs []blob.Ref // the raw chunks in content (= upload) order
+	bytesRefs []blob.Ref // the bytes schema blobs, children before parents, left to right
 }
 
 // sizesTree walks the stored schema: b<size> for a chunk, B<size>[…] for a bytes schema blob.
@@ -601,6 +613,7 @@ func sizesTree(sto blob.Fetcher, br blob.Ref, res *writeResult, depth int) (stri
 			}
 			items = append(items, fmt.Sprintf("b%d", p.Size))
 			res.leaves = append(res.leaves, p.Size)
+			res.chunkRefs = append(res.chunkRefs, p.BlobRef)
 		case p.BytesRef.Valid():
 			if p.Offset != 0 {
 				return "", errors.New("offset in written file")
@@ -610,6 +623,7 @@ func sizesTree(sto blob.Fetcher, br blob.Ref, res *writeResult, depth int) (stri
 				return "", err
 			}
 			res.nBytes++
+			res.bytesRefs = append(res.bytesRefs, p.BytesRef)
 			items = append(items, fmt.Sprintf("B%d[%s]", p.Size, sub))
 		default:
 			items = append(items, fmt.Sprintf("h%d", p.Size))
@@ -652,6 +666,165 @@ func doWrite(dataSpec, readerSpec string, n int, jitter *hk.Rand) (res writeResu
 	}
 	res.out = fmt.Sprintf("ok %d %s", fr.Size(), tree)
 	return res, true
+}
+
+// ---- a blob server that refuses selected blobs ---------------------------------------------------------
+
+type failSel struct {
+	kind    byte // c = k-th chunk, y = j-th bytes schema blob, f = the file blob
+	idx     int
+	delayed bool
+}
+
+func parseFails(w string) ([]failSel, bool) {
+	if w == "-" {
+		return nil, true
+	}
+	items := strings.Split(w, ",")
+	if len(items) > 8 {
+		return nil, false
+	}
+	var out []failSel
+	for _, it := range items {
+		var f failSel
+		if strings.HasSuffix(it, "d") {
+			f.delayed = true
+			it = it[:len(it)-1]
+		}
+		switch {
+		case it == "f":
+			f.kind = 'f'
+		case len(it) > 1 && (it[0] == 'c' || it[0] == 'y'):
+			v, ok := num(it[1:])
+			if !ok {
+				return nil, false
+			}
+			f.kind, f.idx = it[0], int(v)
+		default:
+			return nil, false
+		}
+		out = append(out, f)
+	}
+	return out, true
+}
+
+var errInjected = errors.New("c15: injected receive failure")
+
+type faultStore struct {
+	*memory.Storage
+	fail     map[blob.Ref]bool // ref -> delayed
+	eofc     chan struct{}
+	mu       sync.Mutex
+	injected int
+}
+
+func (s *faultStore) ReceiveBlob(ctx context.Context, br blob.Ref, src io.Reader) (blob.SizedRef, error) {
+	delayed, bad := s.fail[br]
+	if !bad {
+		return s.Storage.ReceiveBlob(ctx, br, src)
+	}
+	io.Copy(io.Discard, src)
+	if delayed {
+		// fail only after the source has reported EOF and the writer had time to leave its read loop
+		select {
+		case <-s.eofc:
+		case <-time.After(300 * time.Millisecond):
+		}
+		time.Sleep(1500 * time.Microsecond)
+	}
+	s.mu.Lock()
+	s.injected++
+	s.mu.Unlock()
+	return blob.SizedRef{}, errInjected
+}
+
+type faultResult struct {
+	out       string
+	dry       writeResult
+	effective int // selections that name an existing blob
+	injected  int
+	err       error
+	ref       blob.Ref
+	sto       *faultStore
+}
+
+// allStored: every blob referenced (transitively) from br is in the store; returns the first missing one.
+func allStored(sto *memory.Storage, br blob.Ref) (missing string) {
+	c, ok := sto.BlobContents(br)
+	if !ok {
+		return br.String()
+	}
+	b, err := schema.BlobFromReader(br, strings.NewReader(c))
+	if err != nil {
+		return ""
+	}
+	for _, p := range b.ByteParts() {
+		if p.BlobRef.Valid() {
+			if _, ok := sto.BlobContents(p.BlobRef); !ok {
+				return p.BlobRef.String()
+			}
+		}
+		if p.BytesRef.Valid() {
+			if m := allStored(sto, p.BytesRef); m != "" {
+				return m
+			}
+		}
+	}
+	return ""
+}
+
+// doWriteF: a dry run finds out which blobs the write produces; the second run goes to a store that
+// refuses the selected ones.
+func doWriteF(dataSpec, readerSpec string, n int, sels []failSel) (fr faultResult, ok bool) {
+	dry, ok := doWrite(dataSpec, readerSpec, n, nil)
+	if !ok || !strings.HasPrefix(dry.out, "ok ") {
+		return fr, false
+	}
+	fr.dry = dry
+	fail := map[blob.Ref]bool{}
+	add := func(br blob.Ref, delayed bool) {
+		fr.effective++
+		if d, dup := fail[br]; !dup || (d && !delayed) {
+			fail[br] = delayed
+		}
+	}
+	for _, f := range sels {
+		switch {
+		case f.kind == 'c' && f.idx < len(dry.chunkRefs):
+			add(dry.chunkRefs[f.idx], f.delayed)
+		case f.kind == 'y' && f.idx < len(dry.bytesRefs):
+			add(dry.bytesRefs[f.idx], f.delayed)
+		case f.kind == 'f':
+			add(dry.ref, f.delayed)
+		}
+	}
+	rd, _ := newFragReader(readerSpec, dry.data)
+	sto := &faultStore{Storage: &memory.Storage{}, fail: fail, eofc: rd.eofc}
+	fr.sto = sto
+	br, err := schema.WriteFileFromReader(ctxbg, sto, "f", rd)
+	sto.mu.Lock()
+	fr.injected = sto.injected
+	sto.mu.Unlock()
+	fr.err, fr.ref = err, br
+	if err != nil {
+		fr.out = "err"
+		return fr, true
+	}
+	if m := allStored(sto.Storage, br); m != "" {
+		fr.out = "ok-but-not-stored"
+		return fr, true
+	}
+	var res writeResult
+	tree, err := sizesTree(sto, br, &res, 0)
+	if err != nil {
+		fr.out = "ok-but-unreadable"
+		return fr, true
+	}
+	if tree == "" {
+		tree = "-"
+	}
+	fr.out = fmt.Sprintf("ok %d %s", n, tree)
+	return fr, true
 }
 
 // ---- static sets --------------------------------------------------------------------------------------
@@ -834,6 +1007,20 @@ func (e *env) exec(w []string) string {
 			return "bad-op"
 		}
 		res, ok := doWrite(w[1], w[2], int(n), nil)
+		if !ok {
+			return "bad-op"
+		}
+		return res.out
+	case "chunksf":
+		if len(w) != 7 {
+			return "bad-op"
+		}
+		n, ok := num(w[3])
+		sels, ok2 := parseFails(w[6])
+		if !ok || !ok2 || n > maxWriteLen || !chunksArgsOK(w[4], w[5], n) {
+			return "bad-op"
+		}
+		res, ok := doWriteF(w[1], w[2], int(n), sels)
 		if !ok {
 			return "bad-op"
 		}
